@@ -54,26 +54,38 @@ def gen_history(r, res, p_illegal=0.25):
 def exhaustive(maxlen):
     """All OH* histories up to `maxlen` over 2 threads of one process, one
     physical CPU + the virtual CPU (execute alternates between them by thread);
-    a dead thread never executes again."""
+    a dead thread never executes again; an illegal step, if any, is the last one
+    (the emulator stops at the first refused event, so a word with an illegal
+    step before its last letter exercises nothing its prefix does not).
+    Depth-first over the legal prefixes."""
     sysd = emu_lib.Sys([("node0", [(100, [10, 11])], [3])], {"ovni": "1.1.0"})
     alphabet = [(t, op) for t in range(2) for op in "xcpwre"]
     out = []
-    for n in range(1, maxlen + 1):
-        for word in itertools.product(alphabet, repeat=n):
-            w = histories.Walk(None, sysd)
-            w.tick = (lambda w=w: setattr(w, "clk", w.clk + 1) or w.clk)
-            skip = False
-            for (t, op) in word:
-                if op == "x" and w.st[t] == "dead":
-                    skip = True
-                    break
-                if op == "x":
-                    g = 0 if t == 0 else 1       # thread 0 -> physical cpu, thread 1 -> vcpu
-                    w.thread_op(t, "x", cpu=(g, sysd.cpus[g]))
-                else:
-                    w.thread_op(t, op)
-            if not skip:
-                out.append((sysd, w.events, w.expected(), "; ".join(w.illegal)))
+
+    def replay(word):
+        w = histories.Walk(None, sysd)
+        w.tick = (lambda w=w: setattr(w, "clk", w.clk + 1) or w.clk)
+        for (t, op) in word:
+            if op == "x" and w.st[t] == "dead":
+                return None
+            if op == "x":
+                g = 0 if t == 0 else 1       # thread 0 -> physical cpu, thread 1 -> vcpu
+                w.thread_op(t, "x", cpu=(g, sysd.cpus[g]))
+            else:
+                w.thread_op(t, op)
+        return w
+
+    stack = [()]
+    while stack:
+        word = stack.pop()
+        for a in alphabet:
+            nw = word + (a,)
+            w = replay(nw)
+            if w is None:
+                continue
+            out.append((sysd, w.events, w.expected(), "; ".join(w.illegal)))
+            if not w.illegal and len(nw) < maxlen:
+                stack.append(nw)
     return out
 
 
@@ -176,7 +188,7 @@ def c04_oracle(sysd, events, itl):
 
 def check(res, tier, replay=None):
     res.cov["rule"] = ("OH* histories over 1-2 looms, 1-3 threads per process, 1-3 CPUs + vCPU: random walks over the documented "
-                       "automaton with at most one illegal step; thorough adds every history of length <= 5 over two threads. "
+                       "automaton with at most one illegal step; plus every history of length <= 5 (thorough 8) over two threads whose only illegal step, if any, is the last. "
                        "Each trace is written by an independent Python writer, emulated by the real ovniemu -l and by the Lean "
                        "reference emulator; verdict, failing event and thread.prv types 2/4/6 must agree, and the verdict must "
                        "equal the documented automaton's. non-trivial = at least one event; distinct by script")
@@ -188,11 +200,9 @@ def check(res, tier, replay=None):
         n = 400 if tier == "quick" else 6000
         cases = c0405_lib.transition_matrix() + c0405_lib.directed_oversub()
         cases += [gen_history(r, res) for _ in range(n)]
-        if tier == "quick":
-            cases += exhaustive(3)
-        else:
-            cases += exhaustive(5)
-        res.cov["exhaustive_upto"] = 3 if tier == "quick" else 5
+        upto = 5 if tier == "quick" else 8
+        cases += exhaustive(upto)
+        res.cov["exhaustive_upto"] = upto
         found = run_cases(res, prep, cases, "c04", TYPES, oracle=c04_oracle)
         for b in res.cov.get("correspondence_breaks", [])[:3]:
             proved = False
